@@ -1205,7 +1205,40 @@ def _oracle_val(spec):
                                  f"type_() {json.dumps(gt)[:200]} expected {json.dumps(expt)[:200]}"))
     except Exception as e:  # noqa: BLE001
         fails.append(Failure(f"{site}.deserialize", "type-raises", _exc(e)))
+    if not fails:
+        fails.extend(_function_bodies_edited(v))
     return fails
+
+
+def _function_bodies_edited(v):
+    """A function constant that was encoded once and whose body is then EDITED IN PLACE without changing the number of its
+    nodes or links (metadata added to its root, a constant operation of the body replaced) encodes as a fresh constant
+    around the same body does (seeded change C05-15: the encoded body cached under its node and link counts)."""
+    from hugr import ops, val
+
+    out = []
+    stack = [v]
+    while stack:
+        x = stack.pop()
+        if isinstance(x, val.Function):
+            try:
+                h = x.body
+                h[h.root].metadata["verif.edit"] = [len(out)]
+                for n in h:
+                    if isinstance(h[n].op, ops.Const) and h[n].op.val in (val.TRUE, val.FALSE):
+                        h[n].op = ops.Const(val.FALSE if h[n].op.val == val.TRUE else val.TRUE)
+                        break
+                got = _dump(x._to_serial_root())
+                want = _dump(val.Function(h)._to_serial_root())
+            except Exception:  # noqa: BLE001
+                continue
+            if got != want:
+                out.append(Failure("Function._to_serial", "encoding-does-not-follow-an-in-place-edit-of-the-body",
+                                   "encoded once, body edited (same node and link counts), encoded again"))
+                return out
+        for y in getattr(x, "vals", []) or []:
+            stack.append(y)
+    return out
 
 
 def _oracle_op(spec):
